@@ -173,8 +173,9 @@ func (p *Parser) parseComparisonExpression() (ast.Expression, error) {
 		operator := p.currentToken.Literal
 		p.advance() // Consume LIKE/ILIKE
 
-		// Parse pattern
-		pattern, err := p.parsePrimaryExpression()
+		// Parse pattern at the next tighter precedence level (string concatenation / arithmetic),
+		// like the left side: name LIKE prefix || '%'
+		pattern, err := p.parseStringConcatExpression()
 		if err != nil {
 			return nil, goerrors.InvalidSyntaxError(
 				fmt.Sprintf("failed to parse LIKE pattern: %v", err),
